@@ -482,6 +482,7 @@ static void run_prog(void) {
         switch (o->kind) {
         case 'c': one_call(ZSTD_e_continue, (size_t)o->a, (size_t)o->b); break;
         case 's': g_legacy_call = 1; one_call(ZSTD_e_continue, (size_t)o->a, (size_t)o->b); g_legacy_call = 0; break;
+        case 'N': printf("OP pool %ld\n", o->a); break;   /* done before the multithreaded context was created */
         case 'T': { size_t e; printf("OP pool %ld\n", o->a);
                     if (o->a > 0 && !g_pool) g_pool = ZSTD_createThreadPool((size_t)o->a);
                     e = ZSTD_CCtx_refThreadPool(g_cctx, o->a > 0 ? g_pool : NULL);
@@ -577,6 +578,10 @@ static void run_case(void) {
     if (C.wlog) ZSTD_CCtx_setParameter(g_cctx, ZSTD_c_windowLog, C.wlog);
     if (C.dict == 1) ZSTD_CCtx_refPrefix(g_cctx, g_in, C.isize > 40000 ? 40000 : (size_t)C.isize / 2);
     if (C.dict == 2) { ZSTD_CCtx_loadDictionary(g_cctx, g_in, C.isize > 40000 ? 40000 : (size_t)C.isize / 2); g_sticky_dict = 1; }
+    /* a program that starts with Tn references the shared pool BEFORE the multithreaded context exists: the context is built around it */
+    if (C.nops > 0 && C.ops[0].kind == 'T' && C.ops[0].a > 0) {
+        g_pool = ZSTD_createThreadPool((size_t)C.ops[0].a); ZSTD_CCtx_refThreadPool(g_cctx, g_pool); C.ops[0].kind = 'N';
+    }
     /* what ZSTD_CCtx_init_compressStream2 does on first use; done here so that the compared region starts at the first call */
     g_cctx->mtctx = ZSTDMT_createCCtx_advanced((U32)C.nbw, g_cctx->customMem, g_cctx->pool);
     if (g_cctx->mtctx == NULL) { printf("E NOMT\n"); fflush(stdout); _exit(0); }
